@@ -101,6 +101,7 @@ fn run_pair(run: &mut Run, u: &mut U, sa: &[AI], sb: &[AI], mutant: u32) {
         run.count("calibration-replaced");
     }
     let known = if replaced && missing { Some("union-after-calibration-replacement") } else { None };
+    report_unknown(u, run, &desc);
     if known.is_some() {
         // still compared with the model, untagged
         run.case(format!("(0, {coq}"), &format!("corr {desc}"), nontrivial, None);
